@@ -33,7 +33,7 @@ def run_mutant(m, tier):
                 return 'STALE (pattern not found)', ''
             src = src.replace(old, new, m.get('count', 1))
             open(path, 'w').write(src)
-        env = dict(os.environ, KVERIF_REPO=tmp)
+        env = dict(os.environ, KVERIF_REPO=tmp, KVERIF_OUT=os.path.join(tmp, 'out'))
         out = []
         status = 'MISSED'
         for pid in m['props']:
